@@ -548,6 +548,9 @@ class HedSchema(HedSchemaBase):
                 next_index = len(working_tag)
             parent_name = working_tag[:next_index]
             parent_entry = self._get_tag_entry(parent_name)
+            if parent_entry and parent_name.endswith("/#"):
+                # A placeholder node is never an intermediate node: what follows the tag is its value, as written.
+                parent_entry = None
 
             if not parent_entry:
                 # We haven't found any tag at all yet
